@@ -47,6 +47,26 @@ impl<ExecC, QueryC> WasmKeeper<ExecC, QueryC> {
         }
     }
 
+    // C11 "with a salt ... repeating it is rejected as a duplicate, leaving state unchanged": whenever the generator's salted
+    // address depends only on (checksum, creator, salt) -- proved for the default generator, C11.addr.salted_fn -- a second
+    // salted instantiation with the same checksum, creator and salt fails and writes nothing, whatever happened to the
+    // instance count, the label or the admin in between
+    pub proof fn lemma_salted_repeat_rejected(&self, s: St, code_id: u64, creator: Addr, admin: Option<Addr>, label: String, created: u64, salt: Binary,
+                                              s2: St, code_id2: u64, admin2: Option<Addr>, label2: String, created2: u64)
+        requires
+            forall|ci: u64, ii: u64, ci2: u64, ii2: u64, ck: Seq<u8>, ca: CanonicalAddr, sb: Seq<u8>|
+                #[trigger] self.address_generator.predictable_sem(ci, ii, ck, ca, sb) == #[trigger] self.address_generator.predictable_sem(ci2, ii2, ck, ca, sb),
+            self.register_sem(s, code_id, creator, admin, label, created, Some(salt)).0 matches Ok(addr) && self.contract_data_sem(s2, addr) is Ok,
+            code_id2 >= 1 && self.has_code(code_id2) && self.code_data@[code_id2].checksum.c@ == self.code_data@[code_id].checksum.c@,
+        ensures
+            /*VXCLAUSE C11.lemma.salted_repeat_rejected*/ (self.register_sem(s2, code_id2, creator, admin2, label2, created2, Some(salt)).0 is Err
+                && self.register_sem(s2, code_id2, creator, admin2, label2, created2, Some(salt)).1 == s2),
+    {
+        let addr = self.register_sem(s, code_id, creator, admin, label, created, Some(salt)).0->Ok_0;
+        assert(self.gen_addr(s, code_id, creator, Some(salt)) == Ok::<Addr, AnyError>(addr));
+        assert(self.gen_addr(s2, code_id2, creator, Some(salt)) == Ok::<Addr, AnyError>(addr));
+    }
+
     // C12: only the current admin may change / clear the admin; otherwise nothing changes
     pub open spec fn update_admin_sem(&self, s: St, sender: Addr, contract_addr: Seq<char>, new_admin: Option<String>) -> (AnyResult<AppResponse>, St) {
         if !spec_valid_addr(contract_addr) { (Err(AnyError), s) } else {
